@@ -474,6 +474,56 @@ class Gen:
         lines.append(f"run {run}")
         return lines
 
+    # ------------------------------------------------------------------ directed poisoning shapes (profile flag "poisonshape")
+    def program_poisonshape(self, name, run):
+        """a task panics while it holds two or three guards: the guards are dropped most recent first and every drop is
+        a scheduling point, so the other tasks get to run while the earlier-dropped locks are already released and
+        poisoned (or, for a panicking *reader*, not poisoned)"""
+        r = self.r
+        objs = [("l0", "rwlock", [str(r.below(4))]), ("m0", "mutex", [str(r.below(4))]), ("m1", "mutex", [str(r.below(4))])]
+        nb = 2 + (1 if r.chance(1, 2) else 0)
+        inner = r.choice([["write l0"], ["write l0", "setval l0 7"], ["read l0"], ["lock m1"], ["lock m1", "setval m1 7"],
+                          ["write l0"], ["lock m1", "write l0"], ["trywrite l0"], ["tryread l0"]])
+        objs.append(("m2", "mutex", ["0"]))
+        # (a waiter that is *queued* when a panicking holder releases is dropped from the queue for good, so the observers
+        # must arrive later: they start with a few yields, and the panicker holds two more guards = two windows)
+        a = ["lock m0", "lock m2"] + inner + (["yield"] if r.chance(1, 6) else []) + ["panic"]
+        if r.chance(1, 6):
+            a = inner + ["lock m0", "panic"]                 # the other drop order
+        bodies = [[], a]
+        for _ in range(nb):
+            ops = ["yield"] * r.below(3)
+            for _ in range(2 + r.below(3)):
+                c = r.below(9)
+                if c < 3:
+                    ops += ["read l0", "unread l0"]
+                elif c < 5:
+                    ops += ["write l0", "unwrite l0"]
+                elif c < 6:
+                    ops += ["tryread l0", "if wouldblock skip 1", "unread l0"]
+                elif c < 7:
+                    ops += ["trywrite l0", "if wouldblock skip 1", "unwrite l0"]
+                elif c < 8:
+                    ops += ["lock m1", "unlock m1"]
+                else:
+                    ops += ["trylock m1", "if wouldblock skip 1", "unlock m1"]
+            bodies.append(ops)
+        main = [f"spawn {k}" for k in range(1, len(bodies))]
+        if r.chance(1, 2):
+            main.reverse()
+        if r.chance(1, 2):
+            main += r.choice([["read l0", "unread l0"], ["write l0", "unwrite l0"], ["lock m1", "unlock m1"]])
+        bodies[0] = main
+        lines = [f"=== {name}", "config steps=none clocks=1"]
+        for n, k, args in objs:
+            lines.append(" ".join(["obj", n, k] + args))
+        for k, b in enumerate(bodies):
+            lines.append(f"task {k} thread")
+            lines += ["  " + o for o in b]
+            lines.append("end")
+        lines.append(f"run {run}")
+        return lines
+
     # ------------------------------------------------------------------ async layer (profiles with "async")
     def async_leaf(self, objs, k, nt, fut):
         """one awaitable: the tokens of an async op"""
@@ -671,6 +721,7 @@ PROFILES = {
              "weights": {"send": 5, "recv": 4, "atomic": 1, "yield": 1},
              "min_tasks": 1, "extra_tasks": 2, "min_ops": 1, "extra_ops": 3},
     "chan_shape": {"chanshape": True, "dfs_iters": 1500, "objs": {}},
+    "poison_shape": {"poisonshape": True, "replicate": 8, "objs": {}},
     "chan_dl": {"objs": {"chan": (1, 2), "mutex": (0, 1)}, "dl": True, "parent0": (9, 10),
                 "weights": {"send": 4, "recv": 5, "lock": 1, "yield": 1, "panic": 1},
                 "min_tasks": 1, "extra_tasks": 2, "min_ops": 1, "extra_ops": 3},
@@ -738,7 +789,16 @@ def batch(seed, profile, count, prefix, kinds=("random", "pct", "rr", "dfs")):
     g = Gen(rng, PROFILES[profile] if isinstance(profile, str) else profile)
     lines = []
     for i in range(count):
-        fn = g.program_chanshape if g.p.get("chanshape") else (g.program_async if g.p.get("async") else g.program)
+        fn = g.program_poisonshape if g.p.get("poisonshape") else g.program_chanshape if g.p.get("chanshape") else (g.program_async if g.p.get("async") else g.program)
         # directed shapes are small: explore their schedule trees (almost) exhaustively
+        if g.p.get("replicate"):
+            # every execution of these programs fails, and a run stops at its first failure: one schedule per run,
+            # so the same program is run under several single-iteration schedulers
+            one = fn(f"{prefix}{i}", "rr:1")
+            for j in range(g.p["replicate"]):
+                c = rng.below(8)
+                run = "rr:1" if c == 0 else "dfs:1" if c == 1 else (f"pct:{rng.below(2**32)}:{1 + rng.below(4)}:1" if c < 4 else f"random:{rng.below(2**32)}:1")
+                lines += [one[0] + f"_{j}"] + one[1:-1] + [f"run {run}"]
+            continue
         lines += fn(f"{prefix}{i}", runs_for(rng, ("dfs",) if g.p.get("dfs_iters") else kinds, g.p.get("dfs_iters")))
     return lines
